@@ -28,6 +28,11 @@ def run(ctx):
             fns = [[fn(6, "R1", None, True)] * 3, [fn(2, "R0", "E1", True)] * 3, [fn(2, "R1", None, True)] * 3]
             scs.append(scenario(st, fns, [start(1), start(2, 1), start(3, 1, True), env("CtxCancel", ct, 2)]))
             scs.append(scenario(st, fns, [start(1), start(2, 1), start(3, 1, True), env("AsyncCancel", ct, 3)]))
-    p_c07.run_family(ctx, "c16t", scs)
+    from tscen import rl
+    for t in (1, 2, 3):
+        fns = [[fn(1, "R0", "E1", True)] * 3, [fn(1, "R0", "E1", True)] * 3]
+        scs.append(scenario([retry(1, dly=1), rl("r", 3, wait=1)], fns, [start(1), start(2, 1), env("CtxCancel", t, 2)]))
+        scs.append(scenario([retry(2, dly=1), rl("r", 2, wait=0)], fns, [start(1), start(2, 1)]))
+    p_c07.run_family(ctx, "c16t", scs, props=("C16",))
     return vlib.finish(ctx, rule="all stacks of depth <= D over %d descriptors; the ordered per-execution log of every listener (name, policy, payload) compared with the spec's, under 5 listener-registration variants; "
                        "non-trivial = more than one invocation or any policy event" % len(NAMES), exhaustive=True)
